@@ -226,7 +226,7 @@ type worker struct {
 	res         workerResult
 	hashes      map[uint64]struct{}
 	sampleKinds map[string]int
-	journal     *os.File
+	journal     []byte // mmap'ed slot file: survives the death of the process without a syscall per case
 	violSigs    map[string]int
 
 	curIdx   atomic.Int64
@@ -241,6 +241,41 @@ func cpuNanos() int64 {
 	return ru.Utime.Nano() + ru.Stime.Nano()
 }
 
+// Journal slot layout (little endian): [0:8] index of the case in flight
+// (-1 = none), [8:16] hang flag, [16:24] length of the description,
+// [24:] description (JSON).  The file is a MAP_SHARED mapping, so whatever was
+// stored is in the page cache when the process dies, however it dies.
+const journalSize = 2 << 20
+
+func put64(b []byte, v int64) {
+	for i := 0; i < 8; i++ {
+		b[i] = byte(uint64(v) >> (8 * i))
+	}
+}
+
+func get64(b []byte) int64 {
+	var v uint64
+	for i := 0; i < 8; i++ {
+		v |= uint64(b[i]) << (8 * i)
+	}
+	return int64(v)
+}
+
+func (w *worker) journalStart(idx int) {
+	if w.journal == nil {
+		return
+	}
+	put64(w.journal[16:], 0)
+	put64(w.journal[0:], int64(idx))
+}
+
+func (w *worker) journalEnd() {
+	if w.journal == nil {
+		return
+	}
+	put64(w.journal[0:], -1)
+}
+
 func (w *worker) journalDesc(idx int, desc interface{}) {
 	if w.journal == nil {
 		return
@@ -249,10 +284,12 @@ func (w *worker) journalDesc(idx int, desc interface{}) {
 	if err != nil {
 		b = []byte(fmt.Sprintf("%q", fmt.Sprintf("%v", desc)))
 	}
-	if len(b) > 1<<20 {
+	if len(b) > journalSize-64 {
 		b = []byte(fmt.Sprintf("%q", "case too large for journal"))
 	}
-	fmt.Fprintf(w.journal, "D %d %s\n", idx, b)
+	put64(w.journal[16:], 0)
+	copy(w.journal[24:], b)
+	put64(w.journal[16:], int64(len(b)))
 }
 
 func (w *worker) addViolation(v Violation) {
@@ -286,12 +323,22 @@ func WorkerMain(prop, suite string, from, to int, seed int64, tier, outDir strin
 	w.res.Max = map[string]int64{}
 	w.res.Last = from - 1
 	if outDir != "" {
-		j, err := os.OpenFile(outDir+"/journal", os.O_CREATE|os.O_WRONLY|os.O_APPEND, 0o644)
+		j, err := os.OpenFile(outDir+"/journal", os.O_CREATE|os.O_RDWR, 0o644)
 		if err != nil {
 			fmt.Fprintln(os.Stderr, err)
 			return 2
 		}
-		w.journal = j
+		if err := j.Truncate(journalSize); err != nil {
+			fmt.Fprintln(os.Stderr, err)
+			return 2
+		}
+		m, err := syscall.Mmap(int(j.Fd()), 0, journalSize, syscall.PROT_READ|syscall.PROT_WRITE, syscall.MAP_SHARED)
+		if err != nil {
+			fmt.Fprintln(os.Stderr, "mmap journal:", err)
+			return 2
+		}
+		w.journal = m
+		put64(w.journal[0:], -1)
 	}
 	// address-space limit for non-race builds: a runaway allocation kills the
 	// worker, not the sandbox.
@@ -316,7 +363,7 @@ func WorkerMain(prop, suite string, from, to int, seed int64, tier, outDir strin
 			}
 			if cpuNanos()-w.curStart.Load() > cpuBudget*1e9 && w.curIdx.Load() == idx {
 				if w.journal != nil {
-					fmt.Fprintf(w.journal, "H %d\n", idx)
+					put64(w.journal[8:], 1)
 				}
 				fmt.Fprintf(os.Stderr, "verif: case %d exceeded %d CPU seconds\n", idx, cpuBudget)
 				os.Exit(97)
@@ -325,9 +372,7 @@ func WorkerMain(prop, suite string, from, to int, seed int64, tier, outDir strin
 	}()
 
 	for idx := from; idx < to; idx++ {
-		if w.journal != nil {
-			fmt.Fprintf(w.journal, "S %d\n", idx)
-		}
+		w.journalStart(idx)
 		c := &C{Prop: prop, Suite: suite, Idx: idx, Seed: seed, Tier: tier, w: w, Replay: replay,
 			R: gen.New(gen.Mix(uint64(seed), gen.HashString(prop+"/"+suite), uint64(idx)))}
 		w.curStart.Store(cpuNanos())
@@ -336,9 +381,7 @@ func WorkerMain(prop, suite string, from, to int, seed int64, tier, outDir strin
 		w.curIdx.Store(-1)
 		w.res.Evaluations++
 		w.res.Last = idx
-		if w.journal != nil {
-			fmt.Fprintf(w.journal, "E %d\n", idx)
-		}
+		w.journalEnd()
 	}
 	w.res.Done = true
 	if outDir == "" {
